@@ -42,6 +42,7 @@ RULE += (' Names include non-NFC forms and compatibility look-alikes of existing
 RULE += (' A quarter of the archives begin with ordered chains of symbolic-link members (depth 1..3) and a file named through them; any member may be a link.')
 RULE += (' A sixth of the file offers carry a second (directory) entry with another name and a valid archive as payload.')
 RULE += (" The destination may pre-exist as a symbolic link to a file kept elsewhere in the receiver's tree.")
+RULE += (" The unrelated pre-existing '<destination>.tmp' is a directory with the user's files in it in a third of the cases.")
 LEVEL_TEXT = ("Seeded exploration over generated inputs/configurations. "
               "allowed := the announced destination (cwd/basename, the "
               "--output-file target, or target-dir/basename) and, for "
@@ -272,8 +273,15 @@ def _run2(seed, tape, opts, w):
             os.path.isdir(os.path.dirname(dest_tmp)) and \
             (tape.choose(5, "tmp1") == 0 or
              opts.get("bias") == "tmp_cut"):
-        # an unrelated file that happens to be called <destination>.tmp
-        put(os.path.relpath(dest_tmp, base), b"unrelated tmp")
+        # an unrelated file -- or directory with files of the user's in it --
+        # that happens to be called <destination>.tmp
+        if tape.choose(3, "tmp_is_dir") == 0:
+            for leaf in ("keep.txt", "a.txt", "sub/deep.txt"):
+                put(os.path.relpath(os.path.join(dest_tmp, leaf), base),
+                    b"the user's own " + leaf.encode())
+            sim.note("probe.preexisting_tmp_directory")
+        else:
+            put(os.path.relpath(dest_tmp, base), b"unrelated tmp")
     tmp_preexisted = os.path.lexists(dest_tmp)
     dest_preexisted = os.path.lexists(dest)
     dest_was_dir = os.path.isdir(dest)
